@@ -237,6 +237,18 @@ for _p, _t in EXTRA8.items():
     if _p in CLAIMED:
         CLAIMED[_p]["text"] += _t
 
+EXTRA9 = {
+ "C02": " Round 8: unary minus is -x or -1*x, not 0-x (which loses the sign of zero; the reference table had accepted it); a table aliased to its own name is still wrapped under the alias (c07.from-arms).",
+ "C03": " Round 8: inside the loop over the grouping keys the key-map store depends on nothing but the loop's own test and the reader's error (c03.key-equality/every-key-stored: a NULL key is a key).",
+ "C05": " Round 8: c06.union-clauses-last (a LIMIT on a union applies to the combined result).",
+ "C06": " Round 8: `no rows` is answered only for a branch whose result is nil -- the object a FROM-less branch hands over is a row (c06.branch-exec); the functions that run a branch read the union's LIMIT/OFFSET/ORDER BY only if the builder stores them after both branches ran (c06.union-clauses-last, a condition over two functions: either half of the seeded change alone is silent).",
+ "C07": " Round 8: a copy of the enclosing registry made by a deferred closure of the CTE builder runs after the registrations and is refused like one placed after the loop (c07.registry-fresh/wins-over-copied-entries); PlainDocument hands out the document itself only after looking at all of its entries (c12.plain-document); the goroutine that chains a nested query waits for the nested group and signals the enclosing one, not the reverse.",
+ "C09": " Round 8: the `each` test (index == -1) is made under the INDEX arm of the kind dispatch, or no RANGE selector is built with a value in its index field (c09.each-only-for-index, a condition over two functions).",
+}
+for _p, _t in EXTRA9.items():
+    if _p in CLAIMED:
+        CLAIMED[_p]["text"] += _t
+
 _pending = "rule set for this property is not implemented yet in this round (see DESIGN.md section 2 for the planned structural rules)"
 for p in ["C01","C02","C03","C04","C05","C06","C07","C09","C10","C11","C12","C13","C14","C15","C16","C17","C18","C19","C20"]:
     if p not in CLAIMED:
